@@ -139,13 +139,21 @@ struct Emit {
 }
 
 impl Emit {
+    // one entry of `out` per physical line of the output file (spliced template text may span several lines):
+    // every line number recorded in the log is then the line Verus reports
     fn push_raw(&mut self, s: &str) {
-        self.out.push(s.to_string());
+        let t = s.strip_suffix('\n').unwrap_or(s);
+        for part in t.split('\n') {
+            self.out.push(part.to_string());
+        }
     }
     fn push_lines(&mut self, lines: &[OutLine], file: &str, fuc: &str) {
         for l in lines {
-            self.out.push(l.text.clone());
-            self.map.push(json!({"out": self.out.len(), "file": file, "src": l.src_line, "fn": fuc}));
+            let t = l.text.strip_suffix('\n').unwrap_or(&l.text);
+            for part in t.split('\n') {
+                self.out.push(part.to_string());
+                self.map.push(json!({"out": self.out.len(), "file": file, "src": l.src_line, "fn": fuc}));
+            }
         }
     }
 }
